@@ -7,18 +7,26 @@ import (
 	"errors"
 )
 
-// verifList: a concrete word list meeting the wordlist.List contract: word i is the two
-// bytes of i (big endian). The contents of the built-in English/Japanese lists are outside.
+// verifList: a concrete word list meeting the wordlist.List contract: word i is the two ASCII
+// bytes 0x40+(i>>6), 0x40+(i&63) (so the list contains upper- and lower-case letters and
+// punctuation). The contents of the built-in English/Japanese lists are outside.
 type verifList struct{}
 
-func verifWordValue(w string) int { return int(w[0])<<8 | int(w[1]) }
+// verifWordValue: index of a two-byte word, >= 2048 if it is not in the list.
+func verifWordValue(w string) int {
+	a, b := int(w[0]), int(w[1])
+	if a < 0x40 || a > 0x5F || b < 0x40 || b > 0x7F {
+		return 4096
+	}
+	return (a-0x40)<<6 | (b - 0x40)
+}
 
 func (verifList) Contains(w string) bool { return len(w) == 2 && verifWordValue(w) < 2048 }
 func (verifList) Word(i int) string {
 	if i < 0 || i >= 2048 {
 		panic("index out of range")
 	}
-	return string([]byte{byte(i >> 8), byte(i)})
+	return string([]byte{byte(0x40 + i>>6), byte(0x40 + i&63)})
 }
 func (l verifList) Index(w string) int {
 	if !l.Contains(w) {
@@ -52,8 +60,8 @@ func verifBytesEq(a, b []byte) bool {
 // VerifC03Encode: EntropyToMnemonic yields the BIP-39 sentence and MnemonicToEntropy inverts it,
 // for every entropy of n bytes.
 //
-//verif:run quick n=16,20
-//verif:run thorough n=24,28,32,36,40,44,48,52,56,60,64
+//verif:run quick n=16
+//verif:run thorough n=20,24,28,32,36,40,44,48,52,56,60,64
 //verif:big bv 640
 //verif:timeout 300
 func VerifC03Encode(n int) {
@@ -99,8 +107,8 @@ func VerifC03EntropySize(n int) {
 
 // VerifC03Decode: MnemonicToEntropy on every sequence of nw two-byte words.
 //
-//verif:run quick nw=0,1,11,12,13,14,15,24,49,51
-//verif:run thorough nw=48,18,21,27,30,33,36,39,42,45,50
+//verif:run quick nw=0,1,11,12,13,15,49
+//verif:run thorough nw=14,24,51,48,18,21,27,30,33,36,39,42,45,50
 //verif:big bv 640
 //verif:timeout 300
 func VerifC03Decode(nw int) {
@@ -109,6 +117,12 @@ func VerifC03Decode(nw int) {
 	known := true
 	for j := range m {
 		m[j] = verifString("word", 2)
+		verifAssume(m[j][0] < 0x80 && m[j][1] < 0x80)
+	}
+	if verifVariant() == 1 && nw%3 == 0 && nw >= 12 && nw <= 48 {
+		verifRepairChecksum(m) // native replay, second attempt: make the sentence valid for the real SHA-256
+	}
+	for j := range m {
 		if verifWordValue(m[j]) >= 2048 {
 			known = false
 		}
@@ -161,5 +175,33 @@ func VerifC03Decode(nw int) {
 		for j := range re {
 			verifAssert("reencode.word", re[j] == m[j])
 		}
+	}
+}
+
+// verifRepairChecksum (replays only): SHA-256 is uninterpreted in the symbolic run, so a
+// counterexample that needs a valid checksum is rebuilt with the real one.
+func verifRepairChecksum(m Mnemonic) {
+	nw := len(m)
+	ent := nw * 11 * 32 / 33 / 8
+	idx := make([]int, nw)
+	for j := range m {
+		idx[j] = verifWordValue(m[j])
+		if idx[j] >= 2048 {
+			return
+		}
+	}
+	bit := func(k int) byte { return byte(idx[k/11]>>uint(10-k%11)) & 1 }
+	ref := make([]byte, ent)
+	for k := 0; k < 8*ent; k++ {
+		ref[k/8] |= bit(k) << uint(7-k%8)
+	}
+	hash := sha256.Sum256(ref)
+	for k := 0; k < ent/4; k++ {
+		pos := 8*ent + k
+		b := int(hash[k/8]>>uint(7-k%8)) & 1
+		idx[pos/11] = idx[pos/11]&^(1<<uint(10-pos%11)) | b<<uint(10-pos%11)
+	}
+	for j := range m {
+		m[j] = verifList{}.Word(idx[j])
 	}
 }
